@@ -247,16 +247,15 @@ Qed.
 
 (* ---------- type-level agreement of the readers ---------- *)
 Theorem readers_agree q y : ty_ok q = true -> good y ->
-  kf_result_ok_has_comma (rty_of q) = false -> kf_tuple_elem_has_comma (rty_of q) = false ->
   (In y (extract_type_names (tstr q)) <-> In y (leaf_names q)) /\
   (In y (ts_of (tstr q)) <-> In y (ok_names q)).
 Proof.
-  intros Hok Hg Hk1 Hk2. destruct (ty_ok_wf q Hok) as [Hw Hh]. pose proof (height_le_len _ Hw) as Hlen. split.
+  intros Hok Hg. destruct (ty_ok_wf q Hok) as [Hw Hh]. pose proof (height_le_len _ Hw) as Hlen. split.
   - unfold extract_type_names, tstr.
     assert (Hs : same_set (harvest (S (List.length (tts (rty_of q)))) (tts (rty_of q))) (names (rty_of q))).
     { apply harvest_names; auto. lia. }
     rewrite (Hs y). apply names_leaf; auto.
   - unfold ts_of, parse_type_structure, tstr.
-    rewrite (parse_tts_faithful (rty_of q) Hw Hk1 Hk2 (S (List.length (tts (rty_of q))))) by lia.
+    rewrite (parse_tts_faithful (rty_of q) Hw (S (List.length (tts (rty_of q))))) by lia.
     apply ts_ok; auto.
 Qed.
